@@ -20,6 +20,8 @@ package cfevesting
 //@   requires forall i: int :: {genState.AccountVestingPools[i]} 0 <= i && i < len(genState.AccountVestingPools) ==> genState.AccountVestingPools[i] != nil
 //@     && (forall j: int :: {genState.AccountVestingPools[i].VestingPools[j]} 0 <= j && j < len(genState.AccountVestingPools[i].VestingPools) ==> genState.AccountVestingPools[i].VestingPools[j] != nil)
 //@   requires forall i: int, j: int :: {genState.AccountVestingPools[i], genState.AccountVestingPools[j]} 0 <= i && i < j && j < len(genState.AccountVestingPools) ==> genState.AccountVestingPools[i].Owner != genState.AccountVestingPools[j].Owner
+//@   // (VestingPool.Validate reads the three amounts of every pool: none is nil in a validated genesis)
+//@   requires genesisPoolsWellFormed(genState.AccountVestingPools)
 //@   modifies $kvHas, $kvVal, $pFound, $pGenesis, $pIL, $pLen, $pLockEnd, $pLockStart, $pName, $pS, $pType, $pW
 //@   modifies $trFound, $trGenesis, $trFromGenesisPool, $trFromGenesisAccount, $vtFound, $vtFree, $vtLockup, $vtVesting
 //@   ensures [vesting-types] forall i: int :: {genState.VestingTypes[i].Name} 0 <= i && i < len(genState.VestingTypes) ==>
